@@ -13,7 +13,7 @@ import (
 
 func init() {
 	register("C02",
-		"the precedence ladder as an ordered partition and its strict-greater (left-associative) climbing; the layering of `,` `=` `?:` binary, prefix, call, member and primary levels (which parser produces each operand of each node); the start-of-element set covers every way an expression can start; the same-line test guards every `.`, `!.` and call `(` continuation and is taken after the last consumed token; list flags (no trailing comma, `...` only before `)`, closers expected); every operator the parser can produce has an evaluator arm.",
+		"the precedence ladder as an ordered partition and its strict-greater (left-associative) climbing; the layering of `,` `=` `?:` binary, prefix, call, member and primary levels (which parser produces each operand of each node); the start-of-element set covers every way an expression can start; the same-line test guards every `.`, `!.` and call `(` continuation and is taken after the last consumed token; list flags (no trailing comma, `...` only before `)`, closers expected, also written out as a token test with a diagnostic on the other edge); no parser function raises a diagnostic at a token that starts an expression and then hands that token, unconsumed, to the expression parser; every operator the parser can produce has an evaluator arm.",
 		"that every token sequence not derivable from the grammar is rejected (language inclusion between the parser and a reference grammar is not a structural fact), and 'nest as written' beyond the layering rule.",
 		runC02)
 }
@@ -32,6 +32,7 @@ func runC02(c *Ctx) {
 	c02LeftAssoc(c, ro)
 	c02Layers(c, ro, "C02.layers")
 	c02StartSet(c, ro)
+	c02NoSpuriousDiagnostic(c, ro)
 	c02SameLine(c, ro)
 	c02Lists(c, ro)
 	c02Downstream(c, ro)
@@ -1225,7 +1226,62 @@ func c02Lists(c *Ctx, ro *ParserRoles) {
 			}
 			return false
 		}
-		missing := pathExists(f, innerCall, isReturn, expects, nil)
+		// the expectation written out (`if p.token() == kind { p.nextToken() } else { <diagnostic> }`): the edge on
+		// which the closer is there needs nothing more; behind the other edge a must-diagnose call is the expectation
+		md := c.MustDiag()
+		var absent []*ssa.BasicBlock
+		present := map[*ssa.BasicBlock]int{}
+		for _, b := range f.Blocks {
+			if len(b.Instrs) == 0 {
+				continue
+			}
+			iff, ok := b.Instrs[len(b.Instrs)-1].(*ssa.If)
+			if !ok {
+				continue
+			}
+			bo, ok := iff.Cond.(*ssa.BinOp)
+			if !ok || (bo.Op != token.EQL && bo.Op != token.NEQ) {
+				continue
+			}
+			var other ssa.Value
+			switch {
+			case c.isTokenRead(bo.X):
+				other = bo.Y
+			case c.isTokenRead(bo.Y):
+				other = bo.X
+			default:
+				continue
+			}
+			if n, ok := constIntArg(other); !ok || n != kind {
+				continue
+			}
+			eq := 0
+			if bo.Op == token.NEQ {
+				eq = 1
+			}
+			present[b] = eq
+			absent = append(absent, b.Succs[1-eq])
+		}
+		expects2 := func(in ssa.Instruction) bool {
+			if expects(in) {
+				return true
+			}
+			call, ok := in.(*ssa.Call)
+			if !ok || calleeOf(call) == nil || !md[calleeOf(call)] {
+				return false
+			}
+			for _, a := range absent {
+				if len(a.Preds) == 1 && a.Dominates(in.Block()) {
+					return true
+				}
+			}
+			return false
+		}
+		edgeOK := func(b *ssa.BasicBlock, k int) bool {
+			eq, ok := present[b]
+			return !ok || k != eq
+		}
+		missing := pathExists(f, innerCall, isReturn, expects2, edgeOK)
 		c.R.Check(rule, "closer:"+name, c.P.InstrPos(innerCall), !missing, "after the inner parse, "+c.SKName(kind)+" must be expected on every path (a missing closer has to be a syntax error)")
 		// the opener is expected before
 		return
